@@ -343,7 +343,7 @@ fn mutate(base: &[u8], seed: u64, n: u8) -> Vec<u8> {
 // ---------------------------------------------------------------------------------------------
 // crafted corpus: one archive per hazard class × codec
 
-pub const N_HAZARDS: u32 = 27;
+pub const N_HAZARDS: u32 = 29;
 
 fn one_tile_parts(ic: u8) -> Parts {
     let h = SpecHeader { ic, tc: 1, tt: 1, clustered: 1, n_addressed: 1, n_entries: 1, n_contents: 1, ..SpecHeader::default() };
@@ -447,6 +447,18 @@ pub fn crafted(id: u32) -> (String, Vec<u8>) {
             pp.root = vec![SpecEntry { tile_id: 3, offset: 0, length: blob.len() as u32, run_length: 1 }];
             let rootb = spec::compress(pp.h.ic, &spec::encode_dir(&pp.root)).unwrap();
             ("compressed stream declaring an absurd decompressed size", join(&pp, &rootb, &blob, &[], &blob, |_| {}))
+        }
+        27 | 28 => {
+            // non-increasing ids around a leaf pointer: [pointer@0 -> leaf, tile@0] (27) or
+            // [tile@5, pointer@5 -> leaf, tile@5] (28); the leaf itself is fine
+            let leaf = spec::compress(ic, &spec::encode_dir(&[SpecEntry { tile_id: 1, offset: 0, length: 4, run_length: 1 }])).unwrap();
+            let ptr_len = leaf.len() as u64;
+            let c = if hz == 27 {
+                Cols { count: 2, deltas: vec![0, 0], runs: vec![0, 1], lens: vec![ptr_len, 4], offs: vec![1, 1] }
+            } else {
+                Cols { count: 3, deltas: vec![5, 0, 0], runs: vec![1, 0, 1], lens: vec![4, ptr_len, 4], offs: vec![1, 1, 1] }
+            };
+            ("leaf pointer next to entries with the same tile id", join(&p, &dir_blob(ic, &c), &p.meta, &leaf, &p.data, |_| {}))
         }
         _ => unreachable!("hazard class {hz}"),
     };
@@ -662,7 +674,7 @@ fn battery(img: &[u8], seed: u64, ctx: &mut Ctx) -> V<()> {
     }
     // partial opens
     let first = sh.as_ref().map_or(5, |h| h.n_addressed);
-    for range in [RangeSpec(Bnd::Unb, Bnd::Exc(0)), RangeSpec(Bnd::Inc(5), Bnd::Exc(2)), RangeSpec(Bnd::Unb, Bnd::Inc(u64::MAX)), RangeSpec(Bnd::Exc(first), Bnd::Unb), RangeSpec(Bnd::Inc(0), Bnd::Inc(3))] {
+    for range in [RangeSpec(Bnd::Unb, Bnd::Exc(0)), RangeSpec(Bnd::Inc(5), Bnd::Exc(2)), RangeSpec(Bnd::Unb, Bnd::Inc(u64::MAX)), RangeSpec(Bnd::Exc(first), Bnd::Unb), RangeSpec(Bnd::Inc(0), Bnd::Inc(3)), RangeSpec(Bnd::Inc(1), Bnd::Unb), RangeSpec(Bnd::Inc(4), Bnd::Exc(6)), RangeSpec(Bnd::Exc(0), Bnd::Inc(u64::MAX))] {
         let _ = sut::guard("from_bytes_partially", || PMTiles::from_bytes_partially(img, range.bounds()).map(|p| p.num_tiles()))?;
     }
     // async twins on a simulated disk
